@@ -104,18 +104,30 @@ var bg = context.Background()
 
 // evalSrc parses and evaluates src against data with a fresh runner.
 func evalSrc(src string, data map[string]interface{}) (o evalOut, perr error) {
-	p := safeParse([]byte(src))
+	buf := []byte(src)
+	p := safeParse(buf)
 	if p.panicked {
 		return evalOut{panicked: true, panicMsg: "parse: " + p.panicMsg}, nil
 	}
 	if p.err != nil {
 		return evalOut{}, p.err
 	}
+	reuseBuffer(buf)
 	r := formula.NewRunner()
 	if data != nil {
 		r.SetThis(data)
 	}
 	return safeResolve(r, bg, p.src.Expression), nil
+}
+
+// reuseBuffer does what a caller does that reads formulas into one buffer: the bytes a tree was parsed
+// from are overwritten with the next text. A tree is a value of its own; from here on it must not
+// depend on that buffer (C08: nothing parsed in between changes what a tree evaluates to).
+func reuseBuffer(buf []byte) {
+	const next = "'zz' + 987 * qq.rr - \"\\u0041\" "
+	for i := range buf {
+		buf[i] = next[i%len(next)]
+	}
 }
 
 // tokText maps the implementation's token kinds to operator text.
